@@ -47,6 +47,7 @@ def rowChains (root : Str) : List Frame → List Cells → List Chain
       (match Rows.matchControl "end" false t with
        | some _ => rowChains root (st.drop 1) rs
        | none =>
+         if t = auditType then rowChains root st rs else
          match Rows.matchControl "begin" true t with
          | some c =>
            (pre ++ [(name, if c = "repeat".toList then Kind.rep else Kind.group)]) ::
